@@ -883,6 +883,16 @@ func hasLongLine(b []byte) bool {
 }
 
 func judgeAll(r *ev.Run, inputs []Input, results map[int]Result, culprits []culprit) {
+	hoByFam := map[string][2]int{} // family -> {inputs served between parser and insert service of another push, requests parked}
+	defer func() {
+		if len(hoByFam) > 0 && r.Extra != nil {
+			m := map[string]string{}
+			for f, c := range hoByFam {
+				m[f] = fmt.Sprintf("%d inputs, %d parked requests", c[0], c[1])
+			}
+			r.Extra["handover_phase_by_family"] = m
+		}
+	}()
 	for i := range inputs {
 		in := &inputs[i]
 		res, ok := results[in.ID]
@@ -944,6 +954,19 @@ func judgeAll(r *ev.Run, inputs []Input, results map[int]Result, culprits []culp
 			r.Transitions++
 			r.TracesValidated++
 			fam := followFamily(in)
+			if res.HOHeld == 0 {
+				r.Outcome("handover_not_achieved/" + fam)
+			} else {
+				r.Transitions++
+				c := hoByFam[fam]
+				hoByFam[fam] = [2]int{c[0] + 1, c[1] + res.HOHeld}
+				r.Outcome(fmt.Sprintf("handover/%s parked=%d a->%d", fam, res.HOHeld, res.HOAStatus))
+				if len(res.HOAltered) > 0 {
+					violate(r, "handed_over_request_altered_before_consumed:"+fam, describe(in)+fmt.Sprintf(": the request(s) another client's valid %s push had handed from its parser to the insert service changed while this input was served, before the insert service copied them into the batch: %v", fam, res.HOAltered), in, res)
+				} else if res.HOAStatus != familyOK[fam] {
+					violate(r, fmt.Sprintf("other_client_between_parser_and_insert_answered_%d:%s", res.HOAStatus, shape(in)), describe(in)+fmt.Sprintf(": the other client's valid %s push, whose parsed requests waited for the insert service while this input was served, was answered %d instead of %d", fam, res.HOAStatus, familyOK[fam]), in, res)
+				}
+			}
 			if !res.AHeld {
 				r.Outcome("interleaving_not_achieved/" + fam)
 			} else {
